@@ -67,9 +67,14 @@ def Level.toBytes (l : Level) : Bytes := toLE 8 l.offset ++ toLE 8 l.size ++ toL
 def Level.fits (l : Level) : Prop := l.offset < 2 ^ 64 ∧ l.size < 2 ^ 64 ∧ l.log2 < 2 ^ 32
 instance (l : Level) : Decidable l.fits := by unfold Level.fits; infer_instance
 
+/-- the exponent check of `from_bytes`: a level whose block-size exponent exceeds 63 is rejected -/
+def Level.sane (l : Level) : Bool := l.log2 ≤ 0x3F
+
 def Ivfc.fromBytes (d : Bytes) : Except Err Ivfc :=
   if slice d 0 8 ≠ ivfcMagic then .error (.other "InvalidHeaderError")
   else if d.length ≠ 0x78 then .error (.other "InvalidHeaderLengthError")
+  else if !((levelAt d 0x10).sane && (levelAt d 0x28).sane && (levelAt d 0x40).sane && (levelAt d 0x58).sane) then
+    .error (.other "InvalidHeaderError")
   else .ok ⟨le d 8 8, levelAt d 0x10, levelAt d 0x28, levelAt d 0x40, levelAt d 0x58, le d 0x70 8⟩
 
 def Ivfc.toBytes (x : Ivfc) : Option Bytes :=
@@ -81,6 +86,7 @@ def Ivfc.toBytes (x : Ivfc) : Option Bytes :=
 def Dpfs.fromBytes (d : Bytes) : Except Err Dpfs :=
   if slice d 0 8 ≠ dpfsMagic then .error (.other "InvalidHeaderError")
   else if d.length ≠ 0x50 then .error (.other "InvalidHeaderLengthError")
+  else if !((levelAt d 0x8).sane && (levelAt d 0x20).sane && (levelAt d 0x38).sane) then .error (.other "InvalidHeaderError")
   else .ok ⟨levelAt d 0x8, levelAt d 0x20, levelAt d 0x38⟩
 
 def Dpfs.toBytes (x : Dpfs) : Option Bytes :=
@@ -111,7 +117,7 @@ def loadPartdesc (pd : Bytes) : Except Err PartDesc :=
       | .error e => .error e
       | .ok dpfs =>
         let base := slice pd difi.hashOffset difi.hashSize
-        .ok ⟨difi, ivfc, dpfs, splitHashes base ((difi.hashSize + 0x1F) / 0x20) 0⟩
+        .ok ⟨difi, ivfc, dpfs, splitHashes base ((base.length + 0x1F) / 0x20) 0⟩
 
 /-- `partdesc[a:a+len(w)] = w` on a bytearray of fixed size `d.length` (slice assignment with equal lengths, possibly
     extending at the end like Python does) -/
